@@ -201,6 +201,15 @@ class Ctx:
     def module_global(self, module, name):
         return self.I.module(module).globals[name]
 
+    def hash_is(self, obj, name):
+        """obj is an instance of the hash algorithm `name` (assumed record model of cryptography.hashes)"""
+        return isinstance(obj, Obj) and obj.kind == "hash:" + name
+
+    def external(self, dotted):
+        """a library class/function as a VALUE (e.g. the hash class handed around by the code)"""
+        from .frontend import External
+        return External(dotted)
+
     def lib(self, dotted, *args, **kw):
         """call a library function through its assumed contract (native mode: the real library)"""
         from .frontend import External
@@ -285,6 +294,13 @@ class Ctx:
 
     def set_add(self, s, v):
         s.add(self.I, v)
+
+    def raise_in_code(self, cls):
+        """a library call fails (used inside recorder handlers: the exception is raised into the code under contract)"""
+        raise PyExc(cls, "raised by the library (assumed contract: may fail on any input)")
+
+    def fresh_bool(self, name):
+        return SymBool(core.z3.Bool(self.E.fresh_name(name)))
 
     def bytearray_of(self, b):
         return ByteArr(to_bytes_val(b))
